@@ -17,7 +17,7 @@ TEXT = ("G1: in reload, refresh and reload_until every call with a (transitive) 
         "keys, record arities and positional layout written by stage / DataStorage::stage equal those read by "
         "replay_stage / DataStorage::replay_stage, and replayed revisions are added staged. G5 (who-may-write): the "
         "staging flags are set only by or-ing the argument on insertion and cleared only by commit / unstage; "
-        "has_staging is an any-fold over all trees. The tree-level flag is raised only behind the absence test of the revision being inserted; replay_stage drops no record it recognised (G4c). Does not decide exact restoration over arbitrary staged sets."
+        "has_staging is an any-fold over all trees. The tree-level flag is raised only behind the absence test of the revision being inserted; replay_stage drops no record it recognised (G4c). G3b: Melda::unstage judges a tree empty only after that tree was rolled back. Does not decide exact restoration over arbitrary staged sets."
         " G4d: an update record is replayed under Some(previous) with a revision built on it.")
 TECHNIQUE = 'static analysis over rustc MIR: staging-guard dominance on every state-writing public operation, completeness of unstage, export/replay table agreement, insertion independent of tree content'
 TRUSTED = ["rustc nightly MIR", "effect summaries over the resolved call graph", "C01/L2 (unstage re-validates)", "C09/O2"]
@@ -194,6 +194,27 @@ def run(facts, res):
             res.violation("G3", "unstage|incomplete", "Melda::unstage is incomplete: data stage cleared %s/%s, every tree unstaged %s/%s, empty trees removed %s, all on every Ok path %s" % (
                 bool(s_data), clears, bool(s_tree), whole, ret_ok, alldom), u.loc())
 
+        # G3b: a tree is judged empty *after* its roll-back: the roll-back of the trees dominates the `retain` that drops the empty
+        # ones, or - when one closure does both - the call of RevisionTree::unstage dominates the emptiness test inside it. Testing
+        # first keeps the trees of objects that only ever existed in the stage: empty, without winner, and every later update fails.
+        for s in s_ret:
+            same = s in s_tree
+            if not same:
+                ok3b = bool(s_tree) and all(cfgu.dominates(t_.block, s.block) and t_.block != s.block for t_ in s_tree)
+            else:
+                ok3b = False
+                for cb in s.closures:
+                    cu = [bi for bi, t in cb.calls() if t.callee is not None and t.callee.target() == "revisiontree::RevisionTree::unstage"]
+                    ce = [bi for bi, t in cb.calls() if t.callee is not None and t.callee.name == "is_empty"]
+                    if cu and ce:
+                        ccfg = cfg_of(cb)
+                        ok3b = all(any(ccfg.dominates(a_, b_) and a_ != b_ for a_ in cu) for b_ in ce)
+            res.instance("G3", "unstage: the emptiness test that drops a tree runs after that tree's roll-back: %s" % ok3b, s.loc())
+            if not ok3b:
+                res.violation("G3", "unstage|emptiness-tested-before-rollback",
+                              "Melda::unstage decides which trees to drop before the staged revisions are rolled back: objects created since the last "
+                              "commit stay behind as empty trees without winner", s.loc())
+
     # ------------------------------------------------------------------ G4
     st = facts.body("melda::Melda::stage")
     rp = facts.body("melda::Melda::replay_stage")
@@ -294,7 +315,7 @@ def run(facts, res):
         n4c = 0
         for e_, l in _ael(rp, facts):
             if not (l.kind == "cmp" and l.term[1] == "Eq" and l.truth is True and any(x[0] == "const" and x[1] == "int" and x[2] in (2, 3) for x in (l.term[2], l.term[3])) and
-                    any(x[0] == "call" and callee_name(x) == "len" for x in walk(l.term))):
+                    any((x[0] == "call" and callee_name(x) == "len") or (x[0] == "unop" and x[1] == "PtrMetadata") for x in walk(l.term))):
                 continue
             hdrs = [hb for hb, ht in rp.calls() if ht.callee is not None and ht.callee.name == "next" and rcfg.is_loop_header(hb) and rcfg.dominates(hb, l.edge[0])]
             if not hdrs:
@@ -488,6 +509,21 @@ def run(facts, res):
         clr = [blk.idx for blk in b.blocks if not blk.cleanup for stt in blk.stmts if stt.kind == "assign" and stt.place.proj and
                stt.place.proj[-1].get("n") == "staging" and stt.place.proj[-1].get("of") == "revisiontree::RevisionTree"]
         ok = bool(pres) and bool(clr) and all(any(cfg.dominates(p, c_) for p in pres) for c_ in clr)
+        if not clr and pres:
+            # `if std::mem::take(&mut self.staging) { entries processed }`: the flag is read and cleared in one step; where it was set,
+            # every path to the return passes the processing of the entries (nothing fallible in between)
+            rets = [blk.idx for blk in b.blocks if not blk.cleanup and blk.term.kind == "return"]
+            for bi, t in b.calls():
+                if t.callee is None or t.callee.name not in ("take", "replace") or not t.args or "staging" not in field_path(arg_term(b, t, 0, 8))[0]:
+                    continue
+                if t.callee.name == "replace" and not (len(t.args) > 1 and t.args[1].is_const() and t.args[1].j.get("bool") is False):
+                    continue
+                was_set = [blk.idx for blk in b.blocks if not blk.cleanup and any(
+                    l.kind == "call" and callee_name(l.term) in ("take", "replace") and l.term[3] == bi and l.truth is True and not l.implied
+                    for l in lits_of(b, blk.idx, facts))]
+                entry = [x for x in was_set if all(cfg.dominates(x, y) for y in was_set)]
+                start = entry[0] if entry else bi
+                ok = bool(rets) and (start in pres or not any(cfg.reaches(start, r_, avoid=set(pres)) for r_ in rets))
         res.instance("G5", "%s clears the tree flag only after `%s` over the entries: %s" % (fn, pre, ok), b.loc())
         if not ok:
             res.violation("G5", "%s|flag-cleared-early" % fn, "%s clears the tree's staging flag without first processing every entry (%s)" % (fn, pre), b.loc())
